@@ -108,7 +108,7 @@ class C08(Check):
     assumptions = [
         "windows of +-40 bases around a variant that touch an unmapped base of the RefSeq<->genome alignment are counted and skipped",
         "the toy database of the test suite does not satisfy the reference-allele clause by construction (its variants do not match its sequence); that clause is not evaluated there",
-        "long-read matching is checked at the level of the equivalence table aldy builds (recording stub in place of indelpost.Variant), not with long reads",
+        "long-read matching is checked at the level of the equivalence table aldy builds from the real indelpost equivalents over the reference aldy itself writes (a wrapper records what is handed to indelpost.Variant), not with long reads",
     ]
     min_distinct_outcomes = 2
 
@@ -126,6 +126,9 @@ class C08(Check):
         if self.tier == "quick":
             specs = [s for i, s in enumerate(specs) if s.seqid == self.seed % 3]
         out += specs
+        # tables with indels / MNVs on the first and last RefSeq bases, both loci layouts
+        edge = [worlds.WorldSpec(st, True, im, 1, "edge", lay) for st in (("+", "-"), ("-", "+")) for im in (False, True) for lay in ("std", "pfirst")]
+        out += edge if self.tier == "thorough" else [edge[(self.seed) % 8], edge[(self.seed + 5) % 8]]
         self.heavy = heavy
         return out
 
